@@ -137,16 +137,56 @@ func c05r2(w *World, rr *RuleRun) {
 		if !ok {
 			return false
 		}
-		// addrs[as][n.Id] = {}: the map operand is a lookup addrs[as]
-		m := w.TS.Of(mu.Map)
-		if m.Op != OpLookup || !isFieldTerm(m.Args[0], a.addrs) {
+		// addrs[as][n.Id] = {}: the map operand is the entry of addrs under as - a lookup
+		// addrs[as], or a fresh map that is itself filed as addrs[as], or a phi / local of those
+		okAsT := func(as *Term) bool {
+			return as.Op == OpCall && suffixName(as) == "String" && len(as.Args) == 1 && isFieldTerm(as.Args[0], addrF) && as.Args[0].Contains(n)
+		}
+		var isEntry func(v ssa.Value, depth int) bool
+		isEntry = func(v ssa.Value, depth int) bool {
+			if depth > 4 {
+				return false
+			}
+			if m := w.TS.Of(v); m.Op == OpLookup && isFieldTerm(m.Args[0], a.addrs) {
+				return okAsT(m.Args[1])
+			}
+			switch x := v.(type) {
+			case *ssa.Phi:
+				for _, e := range x.Edges {
+					if !isEntry(e, depth+1) {
+						return false
+					}
+				}
+				return len(x.Edges) > 0
+			case *ssa.MakeMap:
+				filed := false
+				eachInstr([]*ssa.Function{mu.Parent()}, func(_ *ssa.Function, i2 ssa.Instruction) {
+					if m2, ok := i2.(*ssa.MapUpdate); ok && fieldOfAddr(m2.Map) == a.addrs && m2.Value == ssa.Value(x) && okAsT(w.TS.Of(m2.Key)) {
+						filed = true
+					}
+				})
+				return filed
+			case *ssa.UnOp:
+				if al, ok := x.X.(*ssa.Alloc); ok && al.Referrers() != nil {
+					nSt := 0
+					for _, r := range *al.Referrers() {
+						if st, ok := r.(*ssa.Store); ok && st.Addr == ssa.Value(al) {
+							nSt++
+							if !isEntry(st.Val, depth+1) {
+								return false
+							}
+						}
+					}
+					return nSt > 0
+				}
+			}
+			return false
+		}
+		if !isEntry(mu.Map, 0) {
 			return false
 		}
 		key := w.TS.Of(mu.Key)
-		as := m.Args[1]
-		okKey := isFieldTerm(key, idF) && key.Args[0].Contains(n)
-		okAs := as.Op == OpCall && suffixName(as) == "String" && len(as.Args) == 1 && isFieldTerm(as.Args[0], addrF) && as.Args[0].Contains(n)
-		return okKey && okAs
+		return isFieldTerm(key, idF) && key.Args[0].Contains(n)
 	}
 	ff := w.FE.analysisFor(a.tAdd)
 	nilRets := 0
